@@ -118,6 +118,23 @@ Unpack(e, writeable, mutableDir) ==
 \* what a holder of the read-cap (readkey, no writekey) can derive from a stored entry
 Knows(e) == {e.ro} \cup (IF e.rwenc.key = "" THEN {e.rwenc.plain} ELSE {})
 
+(* ------------------- the ways of handing a child to a directory -------------------- *)
+\* (rw slot, ro slot) combinations of caps of one kind, with every prefix; plus a known cap in the ro slot
+\* next to an unknown cap in the rw slot
+Pfx == {"", "ro.", "imm."}
+Cap(p, k, l) == [pfx |-> p, kind |-> k, lvl |-> l, obj |-> "o"]
+
+RwOpts(k) == {NoCap} \cup
+  (IF k \in ImmKinds THEN {Cap(p, k, "r") : p \in Pfx}
+   ELSE IF k \in MutKinds THEN {Cap(p, k, "w") : p \in Pfx}
+   ELSE {Cap("", k, "w")} \cup {Cap(p, k, "r") : p \in {"ro.", "imm."}})     \* a prefixed unknown cap is alleged read-only
+RoOpts(k) == {NoCap} \cup {Cap(p, k, "r") : p \in Pfx} \cup
+  (IF k \in MutKinds THEN {Cap("", k, "w"), Cap("ro.", k, "w")}                \* a write-cap put in the ro slot
+   ELSE IF k = "FUT" THEN {Cap("", "SSK", "w"), Cap("", "DIR2", "w"), Cap("", "SSK", "r"), Cap("", "CHK", "r")}   \* unknown rw + known ro
+   ELSE {})
+
+GivensOf(K) == UNION {{[rw |-> a, ro |-> b] : a \in RwOpts(k), b \in RoOpts(k)} : k \in K}
+
 (* ------------------------------- names ---------------------------------- *)
 \* "e2"/"k2" are not NFC-normalised; their NFC forms are "e1"/"k1" (see Dirnode.tla)
 NFCp == [e2 |-> "e1", k2 |-> "k1"]
